@@ -173,11 +173,10 @@ def run_pair(run, I, obj, label, wname, tname, q, owner, fn, avail, units_list, 
 def run_nomass(run, I, obj, label, wname, tname, q, owner, fn, avail, counter):
     """a per-mass unit asked of an object that has no composition: there is no molar mass to divide by, so no number
     can be the answer (whatever is returned would have to be twin * R / M) - the wrapper has to refuse"""
+    if isinstance(getv(I, obj, tname, avail)[0], Raised):
+        return
     for u in ('J/g/K', 'kJ/kg/K'):
         uarg = u[:-2] if q in ENERGY else u
-        t = getv(I, obj, tname, avail)[0]
-        if isinstance(t, Raised):
-            return
         w = getv(I, obj, wname, dict(avail, units=uarg))[0]
         counter[0] += 1
         run.check(isinstance(w, Raised), 'TWIN.permass', '%s.%s' % (label.split('[')[0], wname), 'no composition',
@@ -291,6 +290,12 @@ def check(run, repo):
         av = {'T': D.sym('T'), 'P': D.sym('P')}
         run_pair(run, I, sp_b, 'StatMech[second species, same elements]', wname, tname, q, owner, fn, av,
                  ['J/g/K'], molw_b, counter)
+    # the same species without a composition (``elements`` is None, the constructor's default)
+    sp_0 = Obj('sp', ci, attrs=dict(attrs, elements=None))
+    sel_opaque(sp_0)
+    for wname, tname, q, owner, fn in wrappers_of(repo, ci):
+        run_nomass(run, I, sp_0, 'StatMech[elements=None]', wname, tname, q, owner, fn,
+                   {'T': D.sym('T'), 'P': D.sym('P')}, counter)
     # the same species with references attached: every boolean option the wrapper shares with its twin is flipped,
     # one at a time, on both - an option that is consumed on the way (use_references, verbose, ...) shows
     refs = opaque_obj(I, 'refs', {m: ('descriptors', 'T') for m in methods})
@@ -343,6 +348,12 @@ def check(run, repo):
                 run_pair(run, I, sp, cname + sel_label(sel), wname, tname, q, owner, fn, avail,
                          ['J/mol/K'] if sel is False else unit_variants(rkeys, thorough and sel is None, per_mass=True),
                          molw, counter)
+        # the same species without a composition (``elements`` is None, the constructor's default)
+        sp_0 = Obj('sp', ci, attrs=dict(sp.attrs, elements=None))
+        sel_opaque(sp_0)
+        for wname, tname, q, owner, fn in wrappers_of(repo, ci):
+            run_nomass(run, I, sp_0, cname + '[elements=None]', wname, tname, q, owner, fn,
+                       {'T': D.sym('T'), 'P': D.sym('P'), 'S_elements': None}, counter)
         # an array of temperatures: element by element the same relation (T multiplies its own element)
         ranks_ = I.order.ranks
         ranks_.update({'T0': 3, 'T1': 4})
@@ -457,6 +468,47 @@ MUTANTS = [
      'edits': [(P_, "    R_adj = c.R(mol_units) / c.convert_unit(", "    R_adj = c.R(mol_units) * c.convert_unit(")]},
     {'name': 'get_G_act of Reaction multiplies T twice', 'expect': ('TWIN.dim', 'get_G_act'),
      'edits': [(R_, "        return self.get_GoRT_act(T=T, rev=rev, **kwargs)*T \\\n               *c.R('{}/K'.format(units))", "        return self.get_GoRT_act(T=T, rev=rev, **kwargs)*T*T \\\n               *c.R('{}/K'.format(units))", 0, 2)]},
+    # ---- instances added after the white-box review ----
+    {'name': 'StatMech.get_F does not hand on verbose', 'expect': ('TWIN.dim', 'StatMech.get_F'),
+     'edits': [(SM_, "        return self.get_FoRT(verbose=verbose,\n", "        return self.get_FoRT(\n")]},
+    {'name': '_ModelBase.get_G looks for the composition under another name', 'expect': ('FWD.raises', 'BEP.get_G'),
+     'edits': [(P_, """        R_adj = _get_R_adj(units=units,
+                           elements=getattr(self, 'elements', None))
+
+        GoRT_kwargs = kwargs.copy()""", """        R_adj = _get_R_adj(units=units,
+                           elements=getattr(self, 'element', None))
+
+        GoRT_kwargs = kwargs.copy()""")]},
+    {'name': 'ChemkinReaction.get_G_act is get_delta_G without a transition state',
+     'expect': ('TWIN.dim', 'ChemkinReaction.get_G_act'),
+     'edits': [(R_, "        return self.get_GoRT_act(T=T, rev=rev, **kwargs)*T \\\n               *c.R('{}/K'.format(units))",
+                "        if self.transition_state is None:\n            return self.get_delta_G(units=units, T=T, rev=rev, **kwargs)\n"
+                "        return self.get_GoRT_act(T=T, rev=rev, **kwargs)*T \\\n               *c.R('{}/K'.format(units))", 1, 2)]},
+    {'name': 'SurfaceReaction.get_H_act is get_delta_H without a transition state',
+     'expect': ('TWIN.dim', 'SurfaceReaction.get_H_act'),
+     'edits': [('pmutt/omkm/reaction.py', "        return self.get_HoRT_act(rev=rev, T=T, **kwargs)*T*c.R(R_units)",
+                "        if self.transition_state is None:\n            return self.get_delta_H(units=units, T=T, rev=rev, **kwargs)\n"
+                "        return self.get_HoRT_act(rev=rev, T=T, **kwargs)*T*c.R(R_units)")]},
+    {'name': 'Nasa.get_G: S_elements given means switched on', 'expect': ('TWIN.dim', 'Nasa.get_G'),
+     'edits': [(N_, "                             S_elements=S_elements,\n                             **kwargs) * T * R_adj",
+                "                             S_elements=S_elements is not None,\n                             **kwargs) * T * R_adj", 0, 2)]},
+    {'name': 'Shomate.get_G: S_elements given means switched on', 'expect': ('TWIN.dim', 'Shomate.get_G'),
+     'edits': [(S_, "                             S_elements=S_elements,\n                             **kwargs) * T * R_adj",
+                "                             S_elements=S_elements is not None,\n                             **kwargs) * T * R_adj")]},
+    {'name': '_get_R_adj: molar constant when there is no composition', 'expect': ('TWIN.permass', ''),
+     'edits': [(P_, """        raise AttributeError(err_msg)
+
+    mol_weight = get_molecular_weight(elements)  # g/mol""", """        return c.R(units.replace('/{}'.format(mass_unit), '/mol'))
+
+    mol_weight = get_molecular_weight(elements)  # g/mol""")]},
+    {'name': 'StatMech.get_S: molar constant when there is no composition', 'expect': ('TWIN.permass', 'StatMech.get_S'),
+     'edits': [(SM_, "        R_adj = _get_R_adj(units=units, elements=self.elements)\n        return self.get_SoR(verbose=verbose,",
+                "        R_adj = _get_R_adj(units=units, elements=self.elements) if self.elements is not None else c.R('J/mol/K')\n"
+                "        return self.get_SoR(verbose=verbose,")]},
+    {'name': 'Shomate.get_S: molar constant when there is no composition', 'expect': ('TWIN.permass', 'Shomate.get_S'),
+     'edits': [(S_, "        R_adj = _get_R_adj(units=units, elements=self.elements)\n        return self.get_SoR(T=T,",
+                "        R_adj = _get_R_adj(units=units, elements=self.elements) if self.elements is not None else c.R('J/mol/K')\n"
+                "        return self.get_SoR(T=T,")]},
 ]
 EQUIV = [
     {'name': 'get_delta_Cv spelled with keyword order changed',
